@@ -5,6 +5,7 @@ import (
 	_ "verif/mc/callmc"
 	"verif/mc/core"
 	_ "verif/mc/props"
+	_ "verif/mc/schedmc"
 	_ "verif/mc/vermc"
 )
 
